@@ -1,6 +1,7 @@
 /- listing-loop operations of the driver (C12) -/
 import XV.Driver.Util
 import XV.Model.Listing
+import XV.Model.HostPath
 namespace XV.Driver
 open XV XV.Model.Listing
 
@@ -36,6 +37,13 @@ def listingDispatch (op : String) (args : List String) : Option String :=
       let f ← parseFmt fmt
       let is ← (recs.filter (· ≠ "-")).mapM parseLI
       pure (" ".intercalate ((listing f (sl == "1") is).map showOut))).getD "(err bad-arg)"
+  | "x.hostpath", [hm, fm] => some <| (do
+      let h ← parseNat hm; let f ← parseNat fm
+      let r := Model.HostPath.loadCode (N := Unit) (P := Unit) { magic := h, marshalLoads := fun _ => some () } (fun _ _ => some ()) f []
+      pure (match r with
+        | some (.native _) => "native"
+        | some (.portable _) => "portable"
+        | none => "none")).getD "(err bad-arg)"
   | _, _ => none
 
 end XV.Driver
